@@ -293,8 +293,8 @@ class DetectorConvergenceCondition(StoppingCondition):
         converged: jnp.ndarray = jnp.array(False, dtype=bool)
         readings: jax.Array = next(iter(arrays.detector_states[self.detector_name].values()))
 
-        # Always continue if below minimum steps, always stop if at end_step
-        time_condition = curr_time_step < config.time_steps_total
+        # Always continue if below minimum steps, always stop at max_steps / at the end of the simulation
+        time_condition = (curr_time_step < config.time_steps_total) & (curr_time_step < self.max_steps)
         min_steps_condition = curr_time_step >= min_steps
 
         # Wrapping this in a func so we don't compute it until min_steps_condition == True
@@ -329,4 +329,4 @@ class DetectorConvergenceCondition(StoppingCondition):
             operand=None,
         )
 
-        return (~min_steps_condition) | (time_condition & (~converged))
+        return time_condition & ((~min_steps_condition) | (~converged))
